@@ -250,7 +250,12 @@ def inflight_fsx_worker(ctx, job):
                         pf = ctx.path("prog-c14x.json")
                         with open(pf, "w") as fh:
                             _json.dump(prog, fh)
-                        rep = fsx.run({"roots": [cache], "actors": [fsx.actor(flavour, "I", pf)], "timeout_ms": 15000, "hold": hold}, ctx.dir)
+                        def _once():
+                            fsutil.restore(cache, before)
+                            if before is None:
+                                fsutil.wipe(cache)
+                            return fsx.run({"roots": [cache], "actors": [fsx.actor(flavour, "I", pf)], "timeout_ms": 15000, "hold": hold}, ctx.dir)
+                        rep = fsx.confirmed(_once)
                         res["evals"] += 1
                         res["distinct"].add(V.h("fsx", flavour, keyed, declared, n, hold, prior))
                         case = {"flavour": flavour, "keyed": keyed, "declared": declared, "n": n, "hold": hold, "prior": prior}
